@@ -370,7 +370,7 @@ impl Scenario for Scn {
         format!("browse-histories-{:?}", self.prop)
     }
     fn rule(&self) -> String {
-        format!("all sequences over {} events: announcements of two instances sharing a host (TTL 2/10/120), updates with new port / TXT / address (cache-flush), additional address, address learned on a second interface, goodbyes for everything / address / SRV / PTR, PTR only, verify(3 s), idle 0.4 / 1.1 / 5 s; oracle after every step against the reference record store", self.ops.len())
+        format!("all sequences over {} events: announcements of two instances sharing a host (TTL 2/10/120), updates with new port / TXT / address (cache-flush), additional address, address learned on a second interface, goodbyes for everything / address / SRV / PTR, PTR only, verify(2.7 s), idle 0.4 / 1.1 / 5 s; oracle after every step against the reference record store", self.ops.len())
     }
     fn setup(&self) -> Run {
         let mut w = World::one(lay_two());
@@ -422,8 +422,9 @@ impl Scenario for Scn {
             Op::VerifyI => {
                 let now = run.w.now;
                 let pos = run.store.v.len();
-                run.store.verifies.push((now, i.inst.clone(), 3000, pos));
-                run.w.ds[0].h.verify(i.fullname(), Duration::from_millis(3000)).unwrap();
+                // a timeout that is not a whole number of seconds ("any timeout")
+                run.store.verifies.push((now, i.inst.clone(), 2700, pos));
+                run.w.ds[0].h.verify(i.fullname(), Duration::from_millis(2700)).unwrap();
                 run.w.poke(0);
             }
             Op::Idle400 => run.w.advance(400),
